@@ -13,7 +13,9 @@ import DhcpProofs.Lemmas.V4ValSetGet2
     C17_A_bad     spec rejects v               → A returns its documented default
     C17_A_absent  no value                     → A returns its documented default
     C17_set_get_A constructor then A returns the value, on the stated domain
-  (`_bad` is omitted where the spec is total: plain strings and code lists.)
+  (`_bad` is omitted where the spec is total: strings and code lists.  For
+  RelayAgentInfo `_wf`/`_bad` are `def …_full` + `_partial` + `_counterexample`:
+  known finding acc-RelayAgentInfo-pad-end.)
 -/
 namespace Dhcp.V4
 open Dhcp Dhcp.Spec
@@ -114,21 +116,8 @@ example : Val4.ips [10, 0, 0, 1, 10, 0, 0, 2] = some [[10, 0, 0, 1], [10, 0, 0, 
 example : Acc.dns (GOpts.empty.update 6 (some [8, 8, 8, 8, 8, 8, 4])) = none := by decide
 
 
-/-! ## strings (RFC 2132): the octets as sent; absent reads as "" -/
-
-theorem C17_DomainName_wf (o : GOpts) (v x : Bytes) (h : o.get Code.domainName = some v)
-    (hs : Val4.str v = some x) : Acc.domainName o = x := getString_wf _ o v h hs
-theorem C17_DomainName_absent (o : GOpts) (h : o.get Code.domainName = none) :
-    Acc.domainName o = [] := getString_absent _ o h
-theorem C17_set_get_DomainName (o : GOpts) (s : Bytes) :
-    Acc.domainName (o.update Code.domainName (stringToBytes s)) = s := getString_set_get _ o s
-
-theorem C17_RootPath_wf (o : GOpts) (v x : Bytes) (h : o.get Code.rootPath = some v)
-    (hs : Val4.str v = some x) : Acc.rootPath o = x := getString_wf _ o v h hs
-theorem C17_RootPath_absent (o : GOpts) (h : o.get Code.rootPath = none) :
-    Acc.rootPath o = [] := getString_absent _ o h
-theorem C17_set_get_RootPath (o : GOpts) (s : Bytes) :
-    Acc.rootPath (o.update Code.rootPath (stringToBytes s)) = s := getString_set_get _ o s
+/-! ## vendor class identifier (RFC 2132 §9.13): opaque octets, returned exactly
+as sent (trailing NULs included: option 60 is not NVT ASCII); absent reads as "" -/
 
 theorem C17_ClassIdentifier_wf (o : GOpts) (v x : Bytes) (h : o.get Code.classIdentifier = some v)
     (hs : Val4.str v = some x) : Acc.classIdentifier o = x := getString_wf _ o v h hs
@@ -136,16 +125,40 @@ theorem C17_ClassIdentifier_absent (o : GOpts) (h : o.get Code.classIdentifier =
     Acc.classIdentifier o = [] := getString_absent _ o h
 theorem C17_set_get_ClassIdentifier (o : GOpts) (s : Bytes) :
     Acc.classIdentifier (o.update Code.classIdentifier (stringToBytes s)) = s := getString_set_get _ o s
+/-- precisely: `ClassIdentifier()` is the raw value, whatever its octets -/
+theorem C17_ClassIdentifier_raw (o : GOpts) (v : Bytes) (h : o.get Code.classIdentifier = some v) :
+    Acc.classIdentifier o = v := getString_wf _ o v h rfl
+
+example : Val4.str [80, 88, 69, 0, 0] = some [80, 88, 69, 0, 0] := rfl
+example : Acc.classIdentifier (GOpts.empty.update 60 (some [80, 88, 69, 0])) = [80, 88, 69, 0] := by decide
+
+/-! ## NVT-ASCII strings (RFC 2132 §2: trailing NULs are deleted by the receiver):
+host name 12, domain name 15, root path 17, message 56, TFTP server name 66,
+boot file name 67; absent reads as "" -/
+
+theorem C17_DomainName_wf (o : GOpts) (v x : Bytes) (h : o.get Code.domainName = some v)
+    (hs : Val4.strTrim v = some x) : Acc.domainName o = x := getStringTrim_wf _ o v h hs
+theorem C17_DomainName_absent (o : GOpts) (h : o.get Code.domainName = none) :
+    Acc.domainName o = [] := getStringTrim_absent _ o h
+/-- `OptDomainName(s)` for a string that does not end in NUL. -/
+theorem C17_set_get_DomainName (o : GOpts) (s : Bytes) (hd : s.getLast? ≠ some 0) :
+    Acc.domainName (o.update Code.domainName (stringToBytes s)) = s := getStringTrim_set_get _ o s hd
+
+theorem C17_RootPath_wf (o : GOpts) (v x : Bytes) (h : o.get Code.rootPath = some v)
+    (hs : Val4.strTrim v = some x) : Acc.rootPath o = x := getStringTrim_wf _ o v h hs
+theorem C17_RootPath_absent (o : GOpts) (h : o.get Code.rootPath = none) :
+    Acc.rootPath o = [] := getStringTrim_absent _ o h
+/-- `OptRootPath(s)` for a string that does not end in NUL. -/
+theorem C17_set_get_RootPath (o : GOpts) (s : Bytes) (hd : s.getLast? ≠ some 0) :
+    Acc.rootPath (o.update Code.rootPath (stringToBytes s)) = s := getStringTrim_set_get _ o s hd
 
 theorem C17_Message_wf (o : GOpts) (v x : Bytes) (h : o.get Code.message = some v)
-    (hs : Val4.str v = some x) : Acc.message o = x := getString_wf _ o v h hs
+    (hs : Val4.strTrim v = some x) : Acc.message o = x := getStringTrim_wf _ o v h hs
 theorem C17_Message_absent (o : GOpts) (h : o.get Code.message = none) :
-    Acc.message o = [] := getString_absent _ o h
-theorem C17_set_get_Message (o : GOpts) (s : Bytes) :
-    Acc.message (o.update Code.message (stringToBytes s)) = s := getString_set_get _ o s
-
-
-/-! ## NVT-ASCII strings whose trailing NULs are deleted (RFC 2132 §2) -/
+    Acc.message o = [] := getStringTrim_absent _ o h
+/-- `OptMessage(s)` for a string that does not end in NUL. -/
+theorem C17_set_get_Message (o : GOpts) (s : Bytes) (hd : s.getLast? ≠ some 0) :
+    Acc.message (o.update Code.message (stringToBytes s)) = s := getStringTrim_set_get _ o s hd
 
 theorem C17_HostName_wf (o : GOpts) (v x : Bytes) (h : o.get Code.hostName = some v)
     (hs : Val4.strTrim v = some x) : Acc.hostName o = x := getStringTrim_wf _ o v h hs
@@ -171,9 +184,10 @@ theorem C17_TFTPServerName_absent (o : GOpts) (h : o.get Code.tftpServerName = n
 theorem C17_set_get_TFTPServerName (o : GOpts) (s : Bytes) (hd : s.getLast? ≠ some 0) :
     Acc.tftpServerName (o.update Code.tftpServerName (stringToBytes s)) = s := getStringTrim_set_get _ o s hd
 
-example : Val4.strTrim [104, 0, 105, 0, 0] = some [104, 0, 105] ∧ Val4.str [104, 0] = some [104, 0] := by decide
+example : Val4.strTrim [104, 0, 105, 0, 0] = some [104, 0, 105] ∧ Val4.strTrim [0, 0] = some [] := by decide
 example : Acc.hostName (GOpts.empty.update 12 (some [104, 105, 0, 0])) = [104, 105] := by decide
-
+/-- the input of the fixed finding (option 15 = 'a' 00) now reads "a" -/
+example : Acc.domainName (GOpts.empty.update 15 (some [97, 0])) = [97] := by decide
 
 /-! ## durations (RFC 2132 §9.2, §9.11, §9.12): exactly 4 octets of seconds, else the caller's default -/
 
@@ -367,14 +381,75 @@ theorem C17_set_get_ParameterRequestList (o : GOpts) (cs : List UInt8) (hd : cs 
 
 example : Val4.codes [1, 3, 6, 15] = some [1, 3, 6, 15] := rfl
 
-/-! ## relay agent information (RFC 3046): sub-option tuples tiling the value, else nil -/
+/-! ## relay agent information (RFC 3046)
 
-theorem C17_RelayAgentInfo_wf (o : GOpts) (v : Bytes) (m : UInt8 → Option Bytes)
+`Val4.relay` is RFC 3046 read as written: SubOpt/Len/Value tuples tiling the
+value exactly, no pad and no end code.  The library parses option 82 with the
+options-field grammar (octet 0 in code position = pad, 255 = end), so the
+statements against the RFC are FALSE of model and code: known finding
+`acc-RelayAgentInfo-pad-end` (not fixed in /repo: relay agents may pad).  The
+full statements are kept as `def`s, with the proved restriction to values that
+have no 0/255 octet in code position, the counterexamples (replayed on the
+real code, `corpus/v4acc.txt`), and the exact characterisation of what the
+accessor computes (`C17_RelayAgentInfo_padend_*`).  No other typed accessor of
+`*DHCPv4` parses sub-options with `Options.FromBytes` (vendor-specific
+information, option 43, has no typed accessor). -/
+
+/-- RFC 3046: a well-formed field is returned as its code ↦ value map -/
+def C17_RelayAgentInfo_wf_full : Prop :=
+  ∀ (o : GOpts) (v : Bytes) (m : UInt8 → Option Bytes),
+    o.get Code.relayAgentInfo = some v → Val4.relay v = some m → Acc.relayAgentInfo o = some ⟨m⟩
+
+/-- RFC 3046: a field that is not a sequence of complete tuples gives nil -/
+def C17_RelayAgentInfo_bad_full : Prop :=
+  ∀ (o : GOpts) (v : Bytes),
+    o.get Code.relayAgentInfo = some v → Val4.relay v = none → Acc.relayAgentInfo o = none
+
+theorem C17_RelayAgentInfo_wf_partial (o : GOpts) (v : Bytes) (m : UInt8 → Option Bytes)
+    (hc : Val4.noPadEndCodes v = true)
     (h : o.get Code.relayAgentInfo = some v) (hs : Val4.relay v = some m) :
     Acc.relayAgentInfo o = some ⟨m⟩ := by
+  rw [← relayPadEnd_eq_strict v hc] at hs
   simp [Acc.relayAgentInfo, h, relayFromBytes_eq, hs]
-theorem C17_RelayAgentInfo_bad (o : GOpts) (v : Bytes)
+
+theorem C17_RelayAgentInfo_bad_partial (o : GOpts) (v : Bytes)
+    (hc : Val4.noPadEndCodes v = true)
     (h : o.get Code.relayAgentInfo = some v) (hs : Val4.relay v = none) :
+    Acc.relayAgentInfo o = none := by
+  rw [← relayPadEnd_eq_strict v hc] at hs
+  simp [Acc.relayAgentInfo, h, relayFromBytes_eq, hs]
+
+/-- `00 01 07`: RFC 3046 reads sub-option 0 = [7]; the accessor skips the 0 as
+padding, then finds code 1 announcing 7 octets and returns nil. -/
+theorem C17_RelayAgentInfo_wf_counterexample : ¬ C17_RelayAgentInfo_wf_full := by
+  intro hfull
+  have hs : Val4.relay [0, 1, 7] = some (Val4.subOptionValue [(0, [7])]) := by
+    simp [Val4.relay, Val4.subOptions]
+  have h := hfull (GOpts.empty.update Code.relayAgentInfo (some [0, 1, 7])) [0, 1, 7] _
+    (GOpts.get_update_same _ _ _) hs
+  simp [Acc.relayAgentInfo, GOpts.get_update_same, relayFromBytes_eq, Val4.relayPadEnd,
+    Val4.subOptionsPadEnd] at h
+
+/-- `01 02 'a' 'b' ff 09 09`: the tuple that starts with code 255 announces 9
+octets and has 1; the accessor returns the partial map {1:"ab"} instead of nil
+(everything after a 255 octet in code position is ignored). -/
+theorem C17_RelayAgentInfo_bad_counterexample : ¬ C17_RelayAgentInfo_bad_full := by
+  intro hfull
+  have h := hfull (GOpts.empty.update Code.relayAgentInfo (some [1, 2, 97, 98, 255, 9, 9]))
+    [1, 2, 97, 98, 255, 9, 9] (GOpts.get_update_same _ _ _)
+    (by simp [Val4.relay, Val4.subOptions])
+  simp [Acc.relayAgentInfo, GOpts.get_update_same, relayFromBytes_eq, Val4.relayPadEnd,
+    Val4.subOptionsPadEnd] at h
+
+/-- what the accessor computes, exactly: the options-field grammar's map … -/
+theorem C17_RelayAgentInfo_padend_wf (o : GOpts) (v : Bytes) (m : UInt8 → Option Bytes)
+    (h : o.get Code.relayAgentInfo = some v) (hs : Val4.relayPadEnd v = some m) :
+    Acc.relayAgentInfo o = some ⟨m⟩ := by
+  simp [Acc.relayAgentInfo, h, relayFromBytes_eq, hs]
+/-- … and nil on every value that grammar rejects (a code without its length
+octet — F9, fixed —, a value running past the end) -/
+theorem C17_RelayAgentInfo_padend_bad (o : GOpts) (v : Bytes)
+    (h : o.get Code.relayAgentInfo = some v) (hs : Val4.relayPadEnd v = none) :
     Acc.relayAgentInfo o = none := by
   simp [Acc.relayAgentInfo, h, relayFromBytes_eq, hs]
 theorem C17_RelayAgentInfo_absent (o : GOpts) (h : o.get Code.relayAgentInfo = none) :
@@ -388,12 +463,14 @@ theorem C17_set_get_RelayAgentInfo (o : GOpts) (m : Opts) (h0 : m.f 0 = none) (h
     Acc.relayAgentInfo (o.update Code.relayAgentInfo (relayToBytes m)) = some m :=
   relay_set_get o m h0 h255 hne
 
-/-- the value of §7 F9 (`[1 2 'a' 'b' 2]`, a code without its length octet) is malformed … -/
-example : Val4.relay [1, 2, 97, 98, 2] = none := by
-  simp [Val4.relay, Val4.subOptions]
-/-- … and a complete list is read as a map -/
-example : (Val4.subOptions [1, 2, 97, 98, 2, 1, 99]) = some [(1, [97, 98]), (2, [99])] := by
-  simp [Val4.subOptions]
+/-- the value of §7 F9 (`[1 2 'a' 'b' 2]`, a code without its length octet) is
+malformed and inside the partial theorems' domain … -/
+example : Val4.relay [1, 2, 97, 98, 2] = none ∧ Val4.noPadEndCodes [1, 2, 97, 98, 2] = true := by
+  simp [Val4.relay, Val4.subOptions, Val4.noPadEndCodes]
+/-- … and so is a complete list, read as a map -/
+example : Val4.subOptions [1, 2, 97, 98, 2, 1, 99] = some [(1, [97, 98]), (2, [99])] ∧
+    Val4.noPadEndCodes [1, 2, 97, 98, 2, 1, 99] = true := by
+  simp [Val4.subOptions, Val4.noPadEndCodes]
 
 /-! ## user class (RFC 3004): length-prefixed classes tiling the value; a value
 that is not RFC 3004 is returned whole as a single class (documented
@@ -543,13 +620,13 @@ theorem C17_ClasslessStaticRoute_total (o : GOpts) :
 
 theorem C17_RelayAgentInfo_total (o : GOpts) :
     Acc.relayAgentInfo o = none ∨ ∃ v m, o.get Code.relayAgentInfo = some v ∧
-      Val4.relay v = some m ∧ Acc.relayAgentInfo o = some ⟨m⟩ := by
+      Val4.relayPadEnd v = some m ∧ Acc.relayAgentInfo o = some ⟨m⟩ := by
   cases h : o.get Code.relayAgentInfo with
   | none => exact .inl (C17_RelayAgentInfo_absent o h)
   | some v =>
-    cases hs : Val4.relay v with
-    | none => exact .inl (C17_RelayAgentInfo_bad o v h hs)
-    | some m => exact .inr ⟨v, m, rfl, hs, C17_RelayAgentInfo_wf o v m h hs⟩
+    cases hs : Val4.relayPadEnd v with
+    | none => exact .inl (C17_RelayAgentInfo_padend_bad o v h hs)
+    | some m => exact .inr ⟨v, m, rfl, hs, C17_RelayAgentInfo_padend_wf o v m h hs⟩
 
 /-- an accessor only depends on its own option: other options in the packet
 do not change its result (stated for the generic update). -/
@@ -557,66 +634,5 @@ theorem C17_other_options_irrelevant (o : GOpts) (k : UInt8) (w : GoBytes) (hk :
     Acc.router (o.update k w) = Acc.router o := by
   have : (o.update k w).get Code.router = o.get Code.router := GOpts.get_update_ne o w (Ne.symm hk)
   simp [Acc.router, getIPs, this]
-
-/-! ## Where the accessors are laxer than the RFC text read to the letter
-
-The theorems above are stated against `Val4.relay` / `Val4.str`, which encode
-what the library does.  Read strictly, two RFC clauses are NOT met; the full
-statements are kept, the part that holds is proved, and each comes with a
-witness that was replayed on the real code (see the report / evidence). -/
-
-/-- RFC 3046 to the letter: a field that is not a sequence of complete tuples
-is malformed, so `RelayAgentInfo` should return nil. -/
-def C17_RelayAgentInfo_strict_full : Prop :=
-  ∀ (o : GOpts) (v : Bytes), o.get Code.relayAgentInfo = some v → Val4.relayStrict v = none →
-    Acc.relayAgentInfo o = none
-
-/-- what holds: nil on every value that is malformed under the DHCP options
-grammar the library documents (pad = 0, end = 255) -/
-theorem C17_RelayAgentInfo_strict_partial (o : GOpts) (v : Bytes)
-    (h : o.get Code.relayAgentInfo = some v) (hs : Val4.relay v = none) :
-    Acc.relayAgentInfo o = none := C17_RelayAgentInfo_bad o v h hs
-
-/-- `01 02 'a' 'b' ff 09 09`: the tuple that starts with code 255 announces 9
-octets and has 1; the accessor returns the partial map {1:"ab"} instead of
-nil (everything after a 255 octet is ignored). Real code: same result. -/
-theorem C17_RelayAgentInfo_strict_counterexample : ¬ C17_RelayAgentInfo_strict_full := by
-  intro hfull
-  have h := hfull (GOpts.empty.update Code.relayAgentInfo (some [1, 2, 97, 98, 255, 9, 9]))
-    [1, 2, 97, 98, 255, 9, 9] (GOpts.get_update_same _ _ _)
-    (by simp [Val4.relayStrict, Val4.subOptionsStrict])
-  simp [Acc.relayAgentInfo, GOpts.get_update_same, relayFromBytes_eq, Val4.relay, Val4.subOptions] at h
-
-/-- RFC 2132 §2 to the letter ("the receiver … MUST be prepared to delete
-trailing nulls"): every string accessor would return the value without its
-trailing NULs. -/
-def C17_strings_rfc2132_full : Prop :=
-  ∀ (o : GOpts) (v : Bytes),
-    (o.get Code.domainName = some v → Acc.domainName o = Val4.stripNul v) ∧
-    (o.get Code.rootPath = some v → Acc.rootPath o = Val4.stripNul v) ∧
-    (o.get Code.classIdentifier = some v → Acc.classIdentifier o = Val4.stripNul v) ∧
-    (o.get Code.message = some v → Acc.message o = Val4.stripNul v)
-
-/-- what holds: on values that do not end in NUL (for HostName,
-BootFileNameOption and TFTPServerName the deletion is done: `C17_HostName_wf` …) -/
-theorem C17_strings_rfc2132_partial (o : GOpts) (v : Bytes) (hv : v.getLast? ≠ some 0) :
-    (o.get Code.domainName = some v → Acc.domainName o = Val4.stripNul v) ∧
-    (o.get Code.rootPath = some v → Acc.rootPath o = Val4.stripNul v) ∧
-    (o.get Code.classIdentifier = some v → Acc.classIdentifier o = Val4.stripNul v) ∧
-    (o.get Code.message = some v → Acc.message o = Val4.stripNul v) := by
-  rw [stripNul_id v hv]
-  refine ⟨?_, ?_, ?_, ?_⟩ <;> intro h
-  · exact getString_wf _ o v h rfl
-  · exact getString_wf _ o v h rfl
-  · exact getString_wf _ o v h rfl
-  · exact getString_wf _ o v h rfl
-
-/-- `'a' 00` in option 15: `DomainName()` returns "a\x00" (2 bytes), not "a".
-Real code: same result. -/
-theorem C17_strings_rfc2132_counterexample : ¬ C17_strings_rfc2132_full := by
-  intro hfull
-  have h := (hfull (GOpts.empty.update Code.domainName (some [97, 0])) [97, 0]).1
-    (GOpts.get_update_same _ _ _)
-  simp [Acc.domainName, getString, GOpts.get_update_same, Val4.stripNul] at h
 
 end Dhcp.V4
